@@ -2784,10 +2784,10 @@ func (mgr *Manager) tagUpdateEventWorker() {
 			ticker.Stop()
 			return
 		case <-ticker.C:
-			if len(mgr.updatedTagsToSignal) == 0 {
-				continue
-			}
 			mgr.jobs <- func() {
+				if len(mgr.updatedTagsToSignal) == 0 {
+					return
+				}
 				infos := make([]*TagInfo, 0, len(mgr.updatedTagsToSignal))
 				for tn := range mgr.updatedTagsToSignal {
 					delete(mgr.updatedTagsToSignal, tn)
